@@ -134,7 +134,7 @@ MODELLED = {
     'lark/parser_frontends.py': ['ParsingFrontend._scan' if False else 'ParsingFrontend.scan'],
     'lark/indenter.py': ['Indenter.handle_NL', 'Indenter._process', 'Indenter.process'],
     'lark/visitors.py': ['Transformer._transform_tree', 'Transformer_NonRecursive.transform', 'Transformer_InPlace.transform', 'CollapseAmbiguities.__default__'],
-    'lark/tree.py': ['Tree.__deepcopy__'],
+    'lark/tree.py': ['Tree.__deepcopy__', 'Tree.iter_subtrees'],
     'lark/lark.py': ['Lark.__init__', 'Lark._load', 'Lark.save'],
     'lark/reconstruct.py': ['Reconstructor.reconstruct', 'Reconstructor._reconstruct'],
     'lark/tree_matcher.py': ['TreeMatcher.match_tree', 'TreeMatcher._build_recons_rules'],
